@@ -681,4 +681,425 @@ Proof.
 Qed.
 
 End Poll.
+(* ------------------------------------------------------------------ the datagrams of one poll *)
+Lemma contiguous_ok recv b n :
+  (forall i, 1 <= i <= Z.of_nat n -> In (wadd16 b i) recv) -> contiguous recv b n = true.
+Proof.
+  induction n as [|n IH]; intro H; [reflexivity|]. cbn [contiguous]. apply andb_true_iff. split.
+  - apply existsb_exists. exists (wadd16 b (Z.of_nat (S n))). split; [apply H; lia|apply Z.eqb_refl].
+  - apply IH. intros i Hi. apply H. lia.
+Qed.
+
+Lemma ack_scan_app l1 l2 recv b last :
+  ack_scan (l1 ++ l2) recv b last =
+  match ack_scan l1 recv b last with Some l' => ack_scan l2 recv b l' | None => None end.
+Proof.
+  revert last. induction l1 as [|p r IH]; intro last; [reflexivity|]. cbn [app ack_scan].
+  destruct (pkt_acks p); [|apply IH].
+  destruct (ack_honest recv b (ch_ack (fq_hdr p)) && (0 <=? seq_sub (ch_ack (fq_hdr p)) last)); [apply IH|reflexivity].
+Qed.
+
+Lemma ack_scan_AckL b recv : 0 <= b < M16 ->
+  forall out lo hi, AckL b lo hi out -> 0 <= lo -> hi <= WRAP_TOLERANCE ->
+  (forall i, 1 <= i <= hi -> In (wadd16 b i) recv) ->
+  exists Kn, ack_scan (map fpacket_of (rev out)) recv b (wadd16 b lo) = Some (wadd16 b Kn) /\ lo <= Kn <= hi.
+Proof.
+  intros Hb. induction out as [|p older IH]; intros lo hi A Hlo Hhi Hc; cbn [AckL] in A.
+  - exists lo. split; [reflexivity|lia].
+  - destruct A as (Kp & Ha & Ht & Hle & A').
+    destruct (IH lo Kp A' Hlo ltac:(lia) ltac:(intros i Hi; apply Hc; lia)) as (K1 & E1 & HK1).
+    cbn [rev]. rewrite map_app, ack_scan_app, E1. cbn [map ack_scan].
+    assert (Hpa : pkt_acks (fpacket_of p) = true).
+    { unfold pkt_acks. cbn [fpacket_of fq_hdr]. destruct (ch_type (p_hdr p)); try reflexivity. contradiction. }
+    rewrite Hpa. cbn [fpacket_of fq_hdr]. rewrite Ha.
+    assert (Hh : ack_honest recv b (wadd16 b Kp) = true).
+    { unfold ack_honest. rewrite (seq_sub_base b Kp Hb) by lia.
+      destruct (Z.ltb_spec Kp 0); [lia|]. destruct (Kp <=? 1000); [|reflexivity].
+      apply contiguous_ok. intros i Hi. apply Hc. lia. }
+    rewrite Hh. rewrite seq_sub_small by lia.
+    destruct (Z.leb_spec 0 (Kp - K1)); [|lia]. cbn [andb]. exists Kp. split; [reflexivity|lia].
+Qed.
+
+(* ------------------------------------------------------------------ the trace invariant *)
+Definition TI (b : Z) (recv Rd Rf : list Z) (last : Z) (s : vsock) : Prop :=
+  0 <= b < M16 /\
+  (forall d f, In d Rd -> In f Rf -> c04_pos b d < c04_pos b f) /\
+  Z.of_nat (length Rd + length Rf) <= WRAP_TOLERANCE /\
+  (forall x, In x Rd \/ In x Rf -> In x recv) /\
+  exists K Kl, PI b Rd Rf s K /\ last = wadd16 b Kl /\ 0 <= Kl <= K.
+
+(* fields the invariant reads *)
+Lemma PI_fields b Rd Rf (s s' : vsock) K :
+  PI b Rd Rf s K -> v_last_consumed s' = v_last_consumed s -> v_rx s' = v_rx s -> v_inbox s' = v_inbox s ->
+  v_state s' = v_state s -> PI b Rd Rf s' K.
+Proof.
+  intros P E1 E2 E3 E4. destruct P. constructor; rewrite ?E1, ?E2, ?E3, ?E4; assumption.
+Qed.
+
+Lemma PI_rx_ooq b Rd Rf (s s' : vsock) K :
+  PI b Rd Rf s K -> v_last_consumed s' = v_last_consumed s -> v_inbox s' = v_inbox s -> v_state s' = v_state s ->
+  rx_inv (v_rx s') -> ooq_data (v_rx s') = ooq_data (v_rx s) -> filled_front (v_rx s') = filled_front (v_rx s) ->
+  ooq_len (v_rx s') = ooq_len (v_rx s) -> g_base (v_rx s') = g_base (v_rx s) -> PI b Rd Rf s' K.
+Proof.
+  intros P E1 E3 E4 Hinv D1 D2 D3 D4. destruct P. constructor; rewrite ?E1, ?E3, ?E4; try assumption.
+  - intro Hn. destruct (pi_slots0 Hn) as [C S]. unfold consumed in *. rewrite D1, D2, D4. auto.
+  - rewrite D2, D3. assumption.
+Qed.
+
+Lemma c04_poll_step b recv Rd Rf last (s : vsock) sc s' r :
+  TI b recv Rd Rf last s -> poll cci (VSockRec.set_sends s sc) = (s', r) ->
+  exists last', ack_scan (map fpacket_of (rev (v_out s'))) recv b last = Some last' /\
+                TI b recv Rd Rf last' s'.
+Proof.
+  intros (Hb & G3 & Htol & Hrecv & K & Kl & P & -> & HKl) E.
+  assert (H0 : PO b Rd Rf Kl (poll_init (VSockRec.set_sends s sc))).
+  { exists K. split; [|cbn [AckL v_out poll_init]; unfold poll_init; vsimpl; cbn [AckL]; lia].
+    eapply PI_fields; [exact P|reflexivity..]. }
+  pose proof (poll_Inv cci (PO b Rd Rf Kl) (PO_RX b Rd Rf G3 Htol Kl) (PO_msg b Rd Rf Hb G3 Htol Kl) (PO_closed b Rd Rf Kl)
+                _ _ _ E H0) as (K' & P' & A').
+  pose proof (PI_K_tol b Rd Rf G3 Htol _ _ P') as HK'.
+  destruct (ack_scan_AckL b recv Hb (v_out s') Kl K' A' ltac:(lia) ltac:(lia)) as (Kn & En & HKn).
+  { intros i Hi. apply Hrecv. destruct P'. apply pi_contig0. exact Hi. }
+  exists (wadd16 b Kn). split; [exact En|].
+  split; [exact Hb|]. split; [exact G3|]. split; [exact Htol|]. split; [exact Hrecv|].
+  exists K', Kn. split; [exact P'|]. split; [reflexivity|lia].
+Qed.
+
+(* a delivery: the lists grow as the guard reads them *)
+Lemma TI_deliver b recv Rd Rf last (s : vsock) m :
+  TI b recv Rd Rf last s ->
+  let h := m_hdr m in
+  let plen := Z.of_nat (length (m_payload m)) in
+  (if carries_seq h plen then
+     u16_ok (ch_seq h) && (Z.of_nat (length Rd + length Rf) <? WRAP_TOLERANCE) &&
+     (if ptype_eqb (ch_type h) ST_FIN
+      then forallb (fun d => c04_pos b d <? c04_pos b (ch_seq h)) Rd
+      else forallb (fun f => c04_pos b (ch_seq h) <? c04_pos b f) Rf)
+   else true) = true ->
+  TI b (if carries_seq h plen then ch_seq h :: recv else recv)
+       (if carries_seq h plen then (if ptype_eqb (ch_type h) ST_FIN then Rd else ch_seq h :: Rd) else Rd)
+       (if carries_seq h plen then (if ptype_eqb (ch_type h) ST_FIN then ch_seq h :: Rf else Rf) else Rf)
+       last (vstep_state cci s (VoDeliver m)).
+Proof.
+  intros (Hb & G3 & Htol & Hrecv & K & Kl & P & Hl & HKl) h plen Hg.
+  set (s' := vstep_state cci s (VoDeliver m)).
+  assert (Hs' : v_last_consumed s' = v_last_consumed s /\ v_rx s' = v_rx s /\ v_state s' = v_state s /\
+                (v_inbox s' = v_inbox s \/ v_inbox s' = v_inbox s ++ [m])).
+  { unfold s', vstep_state. cbn [vstep]. destruct (v_inbox_closed s); cbn [fst]; vsimpl; auto. }
+  destruct Hs' as (S1 & S2 & S3 & S4).
+  assert (Hcm : msg_carries m = carries_seq h plen) by reflexivity.
+  destruct (carries_seq h plen) eqn:Ec.
+  - apply andb_true_iff in Hg. destruct Hg as [Hg Hg3]. apply andb_true_iff in Hg. destruct Hg as [Hu Hlen].
+    unfold u16_ok in Hu. apply andb_true_iff in Hu. destruct Hu as [Hu1 Hu2].
+    apply Z.leb_le in Hu1. apply Z.ltb_lt in Hu2, Hlen.
+    set (Rd' := if ptype_eqb (ch_type h) ST_FIN then Rd else ch_seq h :: Rd).
+    set (Rf' := if ptype_eqb (ch_type h) ST_FIN then ch_seq h :: Rf else Rf).
+    assert (Hid : incl Rd Rd') by (unfold Rd'; destruct (ptype_eqb _ _); [apply incl_refl|apply incl_tl, incl_refl]).
+    assert (Hif : incl Rf Rf') by (unfold Rf'; destruct (ptype_eqb _ _); [apply incl_tl, incl_refl|apply incl_refl]).
+    assert (Hlen' : Z.of_nat (length Rd' + length Rf') = Z.of_nat (length Rd + length Rf) + 1).
+    { unfold Rd', Rf'. destruct (ptype_eqb _ _); cbn [length]; lia. }
+    assert (Hnew : if msg_is_fin m then In (ch_seq h) Rf' else In (ch_seq h) Rd').
+    { unfold msg_is_fin, Rd', Rf'. fold h. destruct (ptype_eqb _ _); left; reflexivity. }
+    split; [exact Hb|]. split.
+    { intros d f Hd Hf. unfold Rd', Rf' in Hd, Hf. destruct (ptype_eqb (ch_type h) ST_FIN).
+      - destruct Hf as [<-|Hf]; [|apply G3; assumption].
+        rewrite forallb_forall in Hg3. specialize (Hg3 d Hd). apply Z.ltb_lt in Hg3. exact Hg3.
+      - destruct Hd as [<-|Hd]; [|apply G3; assumption].
+        rewrite forallb_forall in Hg3. specialize (Hg3 f Hf). apply Z.ltb_lt in Hg3. exact Hg3. }
+    split; [unfold WRAP_TOLERANCE in *; lia|]. split.
+    { intros x [Hx|Hx]; unfold Rd', Rf' in Hx; destruct (ptype_eqb (ch_type h) ST_FIN);
+        try (destruct Hx as [<-|Hx]; [left; reflexivity|]); right; apply Hrecv; auto. }
+    exists K, Kl. split; [|split; assumption]. destruct P. constructor; rewrite ?S1, ?S2, ?S3; try assumption.
+    + intros i Hi. destruct (pi_contig0 i Hi); [left; apply Hid|right; apply Hif]; assumption.
+    + intro Hn. destruct (pi_slots0 Hn) as [C S]. split; [exact C|]. eapply slots_rcv_mono; [exact S|exact Hid|lia].
+    + intros f r Hs. apply Hif. eapply pi_la0; eauto.
+    + intros m' Hm' Hc'.
+      assert (Hold : In m' (v_inbox s) -> 0 <= ch_seq (m_hdr m') < M16 /\
+                     (if msg_is_fin m' then In (ch_seq (m_hdr m')) Rf' else In (ch_seq (m_hdr m')) Rd')).
+      { intro Hi. destruct (pi_inbox0 m' Hi Hc') as [X1 X2]. split; [exact X1|].
+        destruct (msg_is_fin m'); [apply Hif|apply Hid]; exact X2. }
+      destruct S4 as [S4|S4]; rewrite S4 in Hm'; [apply Hold; exact Hm'|].
+      apply in_app_or in Hm'. destruct Hm' as [Hm'|[<-|[]]]; [apply Hold; exact Hm'|].
+      split; [fold h; lia|exact Hnew].
+    + rewrite Hlen'. destruct S4 as [S4|S4]; rewrite S4; [lia|]. rewrite cntc_app. cbn [cntc]. rewrite Hcm. lia.
+  - split; [exact Hb|]. split; [exact G3|]. split; [exact Htol|]. split; [exact Hrecv|].
+    exists K, Kl. split; [|split; assumption]. destruct P. constructor; rewrite ?S1, ?S2, ?S3; try assumption.
+    + intros m' Hm' Hc'. destruct S4 as [S4|S4]; rewrite S4 in Hm'; [apply pi_inbox0; assumption|].
+      apply in_app_or in Hm'. destruct Hm' as [Hm'|[<-|[]]]; [apply pi_inbox0; assumption|].
+      rewrite Hcm in Hc'. discriminate.
+    + destruct S4 as [S4|S4]; rewrite S4; [lia|]. rewrite cntc_app. cbn [cntc]. rewrite Hcm. lia.
+Qed.
+
+(* the events of the application, the clock and the path limit *)
+Lemma TI_other b recv Rd Rf last (s : vsock) o :
+  match o with VoPoll _ | VoDeliver _ => False | _ => True end ->
+  TI b recv Rd Rf last s -> TI b recv Rd Rf last (vstep_state cci s o).
+Proof.
+  intros Ho (Hb & G3 & Htol & Hrecv & K & Kl & P & Hl & HKl).
+  split; [exact Hb|]. split; [exact G3|]. split; [exact Htol|]. split; [exact Hrecv|].
+  exists K, Kl. split; [|split; assumption].
+  unfold vstep_state. destruct o; try contradiction; cbn [vstep].
+  - eapply PI_fields; [exact P|reflexivity..].
+  - eapply PI_fields; [exact P|reflexivity..].
+  - eapply PI_fields; [exact P|reflexivity..].
+  - destruct (writer_dropped _); [exact P|]. destruct (poll_write _ _) as [[tx1 r] w].
+    eapply PI_fields; [exact P|reflexivity..].
+  - destruct (writer_dropped _); [exact P|]. destruct (poll_flush _) as [[tx1 r] w].
+    eapply PI_fields; [exact P|reflexivity..].
+  - destruct (writer_dropped _); [exact P|]. destruct (poll_shutdown _) as [[tx1 r] w].
+    eapply PI_fields; [exact P|reflexivity..].
+  - destruct (reader_dropped _); [exact P|]. destruct (rx_read _ _) as [[rx1 r] w] eqn:Er.
+    cbn [fst]. assert (Hinv : rx_inv (v_rx s)) by (destruct P; assumption).
+    destruct (rx_read_ooq _ _ _ _ _ Hinv Er) as (I1 & D1 & D2 & D3 & D4).
+    eapply PI_rx_ooq; [exact P|reflexivity..|exact I1|exact D1|exact D2|exact D3|exact D4].
+  - destruct (reader_dropped _); [exact P|]. destruct (rx_drop_reader _) as [rx1 w] eqn:Er.
+    cbn [fst]. unfold rx_drop_reader in Er. injection Er as <- _.
+    assert (Hinv : rx_inv (v_rx s)) by (destruct P; assumption).
+    eapply PI_rx_ooq; [exact P|reflexivity..| |reflexivity|reflexivity|reflexivity|reflexivity].
+    vsimpl. unfold rx_inv in *. cbn [set_flags ooq_data ooq_capacity filled_front ooq_len ooq_len_bytes q q_len_bytes
+      q_capacity last_remaining_rx_window g_base]. exact Hinv.
+  - destruct (drop_writer _) as [tx1 w]. eapply PI_fields; [exact P|reflexivity..].
+Qed.
+
+(* ------------------------------------------------------------------ the walk *)
+Lemma ack_trace_other st r recv b last :
+  (forall h n, fs_event st <> FeDeliver h n) -> (forall sc, fs_event st <> FePoll sc) ->
+  c04_ack_trace (st :: r) recv b last = c04_ack_trace r recv b last.
+Proof.
+  intros N1 N2. cbn [c04_ack_trace]. destruct (fs_event st); try reflexivity;
+    [exfalso; eapply N2; reflexivity|exfalso; eapply N1; reflexivity].
+Qed.
+
+Lemma guard_scan_other st r b rd rf :
+  (forall h n, fs_event st <> FeDeliver h n) ->
+  c04_guard_scan (st :: r) b rd rf = c04_guard_scan r b rd rf.
+Proof.
+  intros N1. cbn [c04_guard_scan]. destruct (fs_event st); try reflexivity. exfalso; eapply N1; reflexivity.
+Qed.
+
+Lemma ack_trace_poll st r recv b last sc res pk w a :
+  fs_event st = FePoll sc -> fs_result st = FrPoll res pk w a ->
+  c04_ack_trace (st :: r) recv b last =
+  match ack_scan pk recv b last with Some last' => c04_ack_trace r recv b last' | None => false end.
+Proof. intros E1 E2. cbn [c04_ack_trace]. rewrite E1, E2. reflexivity. Qed.
+
+Lemma ack_trace_deliver st r recv b last h n :
+  fs_event st = FeDeliver h n ->
+  c04_ack_trace (st :: r) recv b last =
+  c04_ack_trace r (if carries_seq h n then ch_seq h :: recv else recv) b last.
+Proof. intros E1. cbn [c04_ack_trace]. rewrite E1. reflexivity. Qed.
+
+Lemma guard_scan_deliver st r b rd rf h n :
+  fs_event st = FeDeliver h n ->
+  c04_guard_scan (st :: r) b rd rf =
+  if carries_seq h n then
+    u16_ok (ch_seq h) && (Z.of_nat (length rd + length rf) <? WRAP_TOLERANCE) &&
+    (if ptype_eqb (ch_type h) ST_FIN
+     then forallb (fun d => c04_pos b d <? c04_pos b (ch_seq h)) rd && c04_guard_scan r b rd (ch_seq h :: rf)
+     else forallb (fun f => c04_pos b (ch_seq h) <? c04_pos b f) rf && c04_guard_scan r b (ch_seq h :: rd) rf)
+  else c04_guard_scan r b rd rf.
+Proof. intros E1. cbn [c04_guard_scan]. rewrite E1. reflexivity. Qed.
+
+Lemma vstep_event_other (s : vsock) o :
+  match o with VoPoll _ | VoDeliver _ => False | _ => True end ->
+  (forall h n, fs_event (fstep_of cci s o) <> FeDeliver h n) /\
+  (forall sc, fs_event (fstep_of cci s o) <> FePoll sc) /\
+  poll_finished (snd (fst (fst (vstep cci s o)))) = false.
+Proof.
+  intro Ho. rewrite fstep_of_event. pose proof (vstep_other cci s o) as V.
+  destruct o; try contradiction; cbn [fevent_of];
+    (split; [discriminate|split; [discriminate|]]); try (apply V); reflexivity.
+Qed.
+
+Theorem c04_walk : forall ops (s : vsock) b recv Rd Rf last,
+  TI b recv Rd Rf last s ->
+  c04_guard_scan (ftrace cci s ops) b Rd Rf = true ->
+  c04_ack_trace (ftrace cci s ops) recv b last = true.
+Proof.
+  induction ops as [|o ops IH]; intros s b recv Rd Rf last Hi Hg; [reflexivity|].
+  rewrite ftrace_cons in Hg |- *.
+  assert (Hcase : (exists sc, o = VoPoll sc) \/ (exists m, o = VoDeliver m) \/
+                  match o with VoPoll _ | VoDeliver _ => False | _ => True end)
+    by (destruct o; eauto).
+  destruct Hcase as [[sc ->]|[[m ->]|Ho]].
+  - (* poll *)
+    destruct (poll cci (VSockRec.set_sends s sc)) as [s' r] eqn:E.
+    destruct (c04_poll_step b recv Rd Rf last s sc s' r Hi E) as (last' & Es & Hi').
+    assert (Hf : snd (fst (fst (vstep cci s (VoPoll sc)))) = VrPoll r (rev (v_out s')) (rev (v_wakes s')) (v_arm_in s')).
+    { cbn [vstep]. rewrite E. reflexivity. }
+    assert (Hs : vstep_state cci s (VoPoll sc) = s').
+    { unfold vstep_state. cbn [vstep]. rewrite E. reflexivity. }
+    rewrite Hf, Hs in Hg |- *.
+    rewrite (ack_trace_poll _ _ recv b last sc r (map fpacket_of (rev (v_out s'))) (rev (v_wakes s')) (v_arm_in s'));
+      [|rewrite (fstep_of_poll cci s sc s' r E); reflexivity..].
+    rewrite guard_scan_other in Hg by (rewrite (fstep_of_poll cci s sc s' r E); discriminate).
+    rewrite Es. unfold poll_finished in Hg |- *. destruct r; try reflexivity.
+    eapply IH; eauto.
+  - (* deliver *)
+    assert (Hf : poll_finished (snd (fst (fst (vstep cci s (VoDeliver m))))) = false).
+    { cbn [vstep]. destruct (v_inbox_closed s); reflexivity. }
+    rewrite Hf in Hg |- *.
+    assert (Ev : fs_event (fstep_of cci s (VoDeliver m)) = FeDeliver (m_hdr m) (Z.of_nat (length (m_payload m))))
+      by (rewrite fstep_of_event; reflexivity).
+    rewrite (ack_trace_deliver _ _ _ _ _ _ _ Ev). rewrite (guard_scan_deliver _ _ _ _ _ _ _ Ev) in Hg.
+    pose proof (TI_deliver b recv Rd Rf last s m Hi) as Hd. cbv zeta in Hd.
+    destruct (carries_seq (m_hdr m) (Z.of_nat (length (m_payload m)))) eqn:Ec.
+    + apply andb_true_iff in Hg. destruct Hg as [Hg1 Hg2].
+      destruct (ptype_eqb (ch_type (m_hdr m)) ST_FIN) eqn:Ef.
+      * apply andb_true_iff in Hg2. destruct Hg2 as [Hg2 Hg3].
+        eapply IH; [apply Hd; rewrite Hg1, Hg2; reflexivity|exact Hg3].
+      * apply andb_true_iff in Hg2. destruct Hg2 as [Hg2 Hg3].
+        eapply IH; [apply Hd; rewrite Hg1, Hg2; reflexivity|exact Hg3].
+    + eapply IH; [apply Hd; reflexivity|exact Hg].
+  - (* the application, the clock, the path limit, the channel *)
+    destruct (vstep_event_other s o Ho) as (N1 & N2 & N3).
+    rewrite N3 in Hg |- *. rewrite (ack_trace_other _ _ _ _ _ N1 N2). rewrite (guard_scan_other _ _ _ _ _ N1) in Hg.
+    eapply IH; [apply TI_other; eassumption|exact Hg].
+Qed.
+
+(* ------------------------------------------------------------------ from vsock_new *)
+Lemma vsock_new_TI mk c (s0 : vsock) :
+  C10_Pred.vconfig_ok c = true -> vsock_new cci mk c = Some s0 ->
+  TI (v_last_consumed s0) [] [] [] (v_last_consumed s0) s0.
+Proof.
+  intros Hc Hn.
+  assert (Hcfg : 0 <= vc_remote_seq c < M16 /\ 1 <= vc_rx_buf c).
+  { unfold C10_Pred.vconfig_ok in Hc. repeat (apply andb_true_iff in Hc; destruct Hc as [Hc ?]).
+    repeat match goal with H : (_ <=? _) = true |- _ => apply Z.leb_le in H
+                         | H : (_ <? _) = true |- _ => apply Z.ltb_lt in H end. lia. }
+  destruct Hcfg as [Hrs Hrb].
+  revert Hn. unfold vsock_new.
+  destruct (match (if vc_incoming c then None else _) with Some r => _ | None => _ end); [|discriminate].
+  intro H; injection H as <-. cbn [v_last_consumed].
+  set (b := if vc_incoming c then vc_remote_seq c else wsub16 (vc_remote_seq c) 1).
+  assert (Hb : 0 <= b < M16) by (unfold b; destruct (vc_incoming c); [exact Hrs|unfold wsub16, M16; lia]).
+  split; [exact Hb|]. split; [intros d f []|]. split; [cbn; unfold WRAP_TOLERANCE; lia|].
+  split; [intros x [[]|[]]|].
+  exists 0, 0. split; [|split; [rewrite wadd16_0; [reflexivity|exact Hb]|lia]].
+  constructor; cbn [v_last_consumed v_rx v_state v_inbox].
+  - lia.
+  - fold b. rewrite wadd16_0; [reflexivity|exact Hb].
+  - intros i Hi. lia.
+  - apply build_inv; [|lia].
+    change (0 < mss (ss_new {| cfg_ipv4 := vc_ipv4 c; cfg_link_mtu := vc_link_mtu c; cfg_cooldown := 3 |})).
+    apply Z.lt_le_trans with 1; [lia|apply mss_ss_new_pos].
+  - intros _. split; [reflexivity|]. intros i sl Hnth Hd _. exfalso.
+    unfold rx_build in Hnth. cbn [ooq_data] in Hnth. apply Rx_Slots.nth_error_repeat in Hnth. subst sl. discriminate.
+  - intros f r0 Hs. destruct (vc_incoming c); discriminate.
+  - intros m [].
+  - unfold rx_build. cbn [ooq_len filled_front cntc length]. lia.
+Qed.
+
+Theorem c04_vsock_ack_guarded_trace : forall mk c cfg (s0 : vsock) ops,
+  C10_Pred.vconfig_ok c = true -> vsock_new cci mk c = Some s0 ->
+  c04_vsock_ack_guarded cfg (ftrace cci s0 ops) = true.
+Proof.
+  intros mk c cfg s0 ops Hc Hn. unfold c04_vsock_ack_guarded.
+  destruct (c04_peer_ok cfg (ftrace cci s0 ops)) eqn:Hg; [|reflexivity].
+  unfold c04_peer_ok, c04_vsock_ack_ok in *.
+  destruct ops as [|o ops]; [reflexivity|].
+  rewrite ftrace_cons in Hg |- *. rewrite fstep_of_pre in Hg |- *.
+  cbn [fp_of_vsock f_last_consumed] in Hg |- *.
+  rewrite <- ftrace_cons in Hg |- *.
+  apply (c04_walk (o :: ops) s0 (v_last_consumed s0) [] [] [] (v_last_consumed s0)); [|exact Hg].
+  eapply vsock_new_TI; eauto.
+Qed.
+
 End WithCC.
+
+(* ================================================================== witnesses *)
+Definition c04_cfg (rseq : Z) : vconfig :=
+  {| vc_incoming := false; vc_ipv4 := true; vc_link_mtu := 1500; vc_rx_buf := 1048576;
+     vc_tx_init := 32768; vc_tx_max := 1048576; vc_nagle := true; vc_max_retx := 5;
+     vc_inactivity := 10000000000; vc_wait_last_ack := true; vc_mtu_probe_max_retx := 1;
+     vc_isn := 100; vc_remote_seq := rseq; vc_remote_conn_id := 7; vc_remote_wnd := 1048576;
+     vc_remote_ts := 0; vc_syn_sent := 1000000000; vc_now0 := 1000000000 |}.
+
+Definition c04_msg (t : ptype) (seq ack : Z) (pl : list Z) : msg :=
+  {| m_hdr := {| ch_type := t; ch_conn_id := 0; ch_ts := 6; ch_ts_diff := 0; ch_wnd := 1048576;
+                 ch_seq := seq; ch_ack := ack; ch_sack := None; ch_close_reason := None |};
+     m_payload := pl |}.
+
+Definition c04_run (cfg : vconfig) (ops : list vop) : list fstep :=
+  match vsock_new (fixed_cc 4096) (fun _ _ => tt) cfg with
+  | Some s0 => ftrace (fixed_cc 4096) s0 ops
+  | None => []
+  end.
+
+(* (2) a peer that sends ST_DATA above its own FIN: 2 and 4 arrive out of order, then the FIN numbered 1 (it
+   consumes slot 0 and the slot of 2 behind it, last_consumed = 1); an ST_DATA numbered 2 again, acknowledging our
+   FIN, is accepted on the LastAck -> Closed transition, lands in the empty slot where 3 would be and is counted
+   together with the slot of 4: the endpoint acknowledges 3, which never arrived.  The real code does the same. *)
+Definition c04_after_fin_ops : list vop :=
+  [VoDeliver (c04_msg ST_DATA 2 100 [5; 5]); VoDeliver (c04_msg ST_DATA 4 100 [6; 6]);
+   VoDeliver (c04_msg ST_FIN 1 100 []); VoPoll [];
+   VoDeliver (c04_msg ST_DATA 2 101 [7; 7]); VoPoll []].
+
+Definition c04_after_fin_b : bool :=
+  let cfg := c04_cfg 1 in
+  let tr := c04_run cfg c04_after_fin_ops in
+  negb (c04_vsock_ack_ok cfg tr) && C10_Pred.vconfig_ok cfg &&
+  negb (c04_peer_ok cfg tr) && c04_vsock_ack_guarded cfg tr &&
+  match rev tr with
+  | st :: _ => match fs_result st with
+               | FrPoll PollReadyOk [p] _ _ => (ch_ack (fq_hdr p) =? 3) && (f_last_consumed (fs_post st) =? 3)
+               | _ => false
+               end
+  | [] => false
+  end.
+
+Theorem c04_after_fin_shape : c04_after_fin_b = true.
+Proof. vm_compute. reflexivity. Qed.
+
+Theorem c04_vsock_ack_ok_refuted_after_fin :
+  exists cfg ops s0,
+    C10_Pred.vconfig_ok cfg = true /\
+    vsock_new (fixed_cc 4096) (fun _ _ => tt) cfg = Some s0 /\
+    c04_vsock_ack_ok cfg (ftrace (fixed_cc 4096) s0 ops) = false.
+Proof.
+  exists (c04_cfg 1), c04_after_fin_ops.
+  destruct (vsock_new (fixed_cc 4096) (fun _ _ => tt) (c04_cfg 1)) as [s0|] eqn:E; [|vm_compute in E; discriminate].
+  exists s0. split; [reflexivity|]. split; [reflexivity|].
+  pose proof c04_after_fin_shape as H. unfold c04_after_fin_b, c04_run in H. cbv zeta in H. rewrite E in H.
+  repeat (apply andb_true_iff in H; destruct H as [H _]).
+  apply negb_true_iff in H. exact H.
+Qed.
+
+(* (1) beyond the tolerance: the connection starts at 65534; 1025 two-byte ST_DATA numbered 65535, 0, 1, ... are
+   delivered and one poll consumes them all: the acknowledgement 1023 lies 1025 above the base across the wrap,
+   seq_sub reads the distance as negative and the predicate fails although every number was delivered *)
+Fixpoint c04_delivs (n : nat) (seq : Z) : list vop :=
+  match n with O => [] | S n' => VoDeliver (c04_msg ST_DATA seq 100 [7; 7]) :: c04_delivs n' (wadd16 seq 1) end.
+
+Definition c04_wrap_b : bool :=
+  let cfg := c04_cfg 65535 in
+  let tr := c04_run cfg (c04_delivs 1025 65535 ++ [VoPoll []]) in
+  negb (c04_vsock_ack_ok cfg tr) && C10_Pred.vconfig_ok cfg &&
+  negb (c04_peer_ok cfg tr) &&
+  match rev tr with
+  | st :: _ => match fs_result st with
+               | FrPoll PollPending [p] _ _ => ch_ack (fq_hdr p) =? 1023
+               | _ => false
+               end
+  | [] => false
+  end &&
+  (* one delivery less: inside the tolerance, the guard holds and so does the predicate *)
+  (let tr' := c04_run cfg (c04_delivs 1024 65535 ++ [VoPoll []]) in
+   c04_peer_ok cfg tr' && c04_vsock_ack_ok cfg tr').
+
+Theorem c04_wrap_shape : c04_wrap_b = true.
+Proof. vm_compute. reflexivity. Qed.
+
+Theorem c04_vsock_ack_ok_refuted_wrap :
+  exists cfg ops s0,
+    C10_Pred.vconfig_ok cfg = true /\
+    vsock_new (fixed_cc 4096) (fun _ _ => tt) cfg = Some s0 /\
+    c04_vsock_ack_ok cfg (ftrace (fixed_cc 4096) s0 ops) = false.
+Proof.
+  exists (c04_cfg 65535), (c04_delivs 1025 65535 ++ [VoPoll []]).
+  destruct (vsock_new (fixed_cc 4096) (fun _ _ => tt) (c04_cfg 65535)) as [s0|] eqn:E; [|vm_compute in E; discriminate].
+  exists s0. split; [reflexivity|]. split; [reflexivity|].
+  pose proof c04_wrap_shape as H. unfold c04_wrap_b, c04_run in H. cbv zeta in H. rewrite E in H.
+  repeat (apply andb_true_iff in H; destruct H as [H _]).
+  apply negb_true_iff in H. exact H.
+Qed.
